@@ -59,6 +59,44 @@ func runQuoteCase(c *Ctx, st string, q rune, what string, text []rune) {
 					oracle = "decoded token value differs from the original"
 				}
 			}
+			if st != "g" && oracle == "" {
+				// … and through the tokenizer that owns such a state, configured with q as its quote character
+				kind := fmt.Sprintf("c:44:%d", q)
+				tail := ",x"
+				if st == "e" {
+					kind = fmt.Sprintf("Ke|D:%d:%d:q", q, q)
+					tail = " x"
+				}
+				for _, o := range []int{0, 64} {
+					toks, status := tokenizeImpl(kind, o, enc+tail)
+					want := enc
+					if o == 64 {
+						want = string(text)
+					}
+					if status != "" || len(toks) < 2 || string(toks[0].Val) != want {
+						got := status
+						if len(toks) > 0 {
+							got = string(toks[0].Val)
+						}
+						oracle = fmt.Sprintf("the encoded form %q followed by %q, read by a tokenizer with quote character %q (decodeStrings=%v): first token %q, expected %q", enc, tail, string(q), o == 64, got, want)
+						break
+					}
+				}
+			}
+			// what a state answers does not depend on what it was asked before: the SAME string encoded and then decoded,
+			// decoded and then encoded, on this long-lived state and on a new one
+			fresh := newQuoteState(st)
+			e1 := qs.EncodeString(string(text), q)
+			d1 := qs.DecodeString(string(text), q)
+			e2 := qs.EncodeString(string(text), q)
+			if oracle == "" && (e1 != enc || e2 != enc || d1 != fresh.DecodeString(string(text), q)) {
+				oracle = fmt.Sprintf("encode / decode / encode of the same string %q on one state gives %q, %q, %q; a new state gives %q, %q, %q", string(text), e1, d1, e2, enc, fresh.DecodeString(string(text), q), enc)
+			}
+			d3 := qs.DecodeString(enc, q)
+			e3 := qs.EncodeString(enc, q)
+			if oracle == "" && (d3 != string(text) || e3 != newQuoteState(st).EncodeString(enc, q)) {
+				oracle = fmt.Sprintf("decode then encode of %q on one state gives %q, %q; expected %q, %q", enc, d3, e3, string(text), newQuoteState(st).EncodeString(enc, q))
+			}
 			return strRunes(enc)
 		case "dec":
 			return strRunes(qs.DecodeString(string(text), q))
@@ -91,7 +129,7 @@ func runQuoteCase(c *Ctx, st string, q rune, what string, text []rune) {
 
 func propC14(c *Ctx) {
 	states := []string{"g", "e", "c"}
-	quotes := []rune{'\'', '"', 0xab, 0x201c}
+	quotes := []rune{'\'', '"', 0xab, 0x201c, 0x100, 0xff, 0x101}
 	maxL := 4
 	if c.Thorough {
 		maxL = 6
